@@ -46,23 +46,32 @@ func TracerouteSerial(ctx context.Context, t TracerouteDriver, p TracerouteSeria
 				break
 			}
 
-			probe, err = t.ReceiveProbe(p.PollFrequency)
+			var received *ProbeResponse
+			received, err = t.ReceiveProbe(p.PollFrequency)
 			if CheckProbeRetryable("ReceiveProbe", err) {
 				continue
 			} else if err != nil {
 				return nil, fmt.Errorf("ReceiveProbe() failed: %w", err)
-			} else if err := p.validateProbe(probe); err != nil {
+			} else if err := p.validateProbe(received); err != nil {
 				return nil, err
+			}
+			log.Tracef("found probe %+v", received)
+
+			// packets can get delivered twice, or late - only use the first received probe for a TTL to avoid
+			// overestimating RTT (but never let ICMP responses "cover up" actual destination responses)
+			previous := results[received.TTL]
+			if previous == nil || (!previous.IsDest && received.IsDest) {
+				results[received.TTL] = received
+			}
+			// a duplicate or late response for an earlier TTL must not end the wait for the current TTL
+			if received.TTL == uint8(i) || received.IsDest {
+				probe = received
 			}
 		}
 
-		if probe != nil {
-			log.Tracef("found probe %+v", probe)
-			// if we found the destination, no need to keep going
-			results[probe.TTL] = probe
-			if probe.IsDest {
-				break
-			}
+		// if we found the destination, no need to keep going
+		if probe != nil && probe.IsDest {
+			break
 		}
 
 		// wait for at least SendDelay to pass
